@@ -14,17 +14,19 @@ THEOREM_FILE = os.path.join(C.COQ, "theories", "props", "C17_Props.v")
 FAULTS = {
     "unknown_name": ["undefined_name_zz", "(iv + undefined_name_zz)", "strf(undefined_name_zz)", "tv.a + undefined_zz.b"],
     "type_mismatch": ['(1 + "s")', "(1 + strf(1))", "(strf(1) + 1)", "(iv + sv)", "(sv + iv)", "not strf(1)", "(strf(1) && true)",
-                      "(iv == sv)", "(1 < sv)", "iv(1)", "([1] + intf(1))", "(1 in iv)", 'tv{a = "s"}', "(intf(2) * strf(1))"],
+                      "(iv == sv)", "(1 < sv)", "iv(1)", "([1] + intf(1))", "(1 in iv)", 'tv{a = "s"}', "(intf(2) * strf(1))",
+                      "(1 + rec.s)", "(iv + rec.l.0)", "not rec.s", "(rec.s && true)", "(rec.n + rec.s)", "tv{a = rec.s}", "rec.n(1)"],
     "missing_field": ["{a = 1}.nope", "tupf(1).nope", "tv.nope", "tv.(sv)", "tupf(1).a.b"],
     "missing_index": ["[1, 2].7", "lv.7", "lstf(1).5", "lv.(iv)"],
     "unhandled_select": ['select ("zz") => {a = 1}', "select (strf(1)) => {a = 1}", "select (sv) => {a = 1, b = 2}"],
-    "failed_cast": ['int("x12")', "int(strf(1))", "int(sv)", "float(sv)", "float(strf(1))"],
+    "failed_cast": ['int("x12")', "int(strf(1))", "int(sv)", "float(sv)", "float(strf(1))", "int(rec.s)", "float(rec.l.0)"],
     "fail_expr": ['(fail "boom")', "(fail sv)", '(fail "x @" % (iv))', "(fail strf(1))"],
 }
 PRELUDE = ['let strf = func (x) => "s";', "let intf = func (x) => x + 1;", "let tupf = func (x) => {a = x};",
-           "let lstf = func (x) => [x, x];", 'let sv = "x12";', "let iv = 7;", "let tv = {a = 1};", "let lv = [1, 2];"]
+           "let lstf = func (x) => [x, x];", 'let sv = "x12";', "let iv = 7;", "let tv = {a = 1};", "let lv = [1, 2];",
+           'let rec = {s = "x12", n = 3, l = ["b", 2], f = func (x) => x};']
 NESTINGS = ["top", "tuple_field", "list_elem", "call_arg", "select_arm", "func_body", "template_expr", "module_body", "module_out",
-            "module_result", "map_callback", "map_tuple_callback", "filter_callback", "reduce_callback"]
+            "module_result", "field_func_body", "map_callback", "map_tuple_callback", "filter_callback", "reduce_callback"]
 SYNTAX = [("=", ""), (";", ""), ("(", ""), (")", ""), ("{", ""), ("}", ")"), ("=", "=="), (",", ";")]
 
 
@@ -113,6 +115,9 @@ def fault_statements(kind, nesting, tag):
                 "let bad%s = m%s{};" % (tag, tag)], 0, 2
     if nesting == "func_body":
         return ["let g%s = func (x) => [x, %s];" % (tag, F), "let keep%s = 1;" % tag, "let bad%s = g%s(1);" % (tag, tag)], 0, 2
+    if nesting == "field_func_body":
+        # the faulty function is stored in a tuple field and called through a selector two statements later
+        return ["let h%s = {k = 1, f = func (x) => [x, %s]};" % (tag, F), "let keep%s = 1;" % tag, "let bad%s = h%s.f(1);" % (tag, tag)], 0, 2
     if nesting in ("map_callback", "filter_callback", "reduce_callback", "map_tuple_callback"):
         # the fault is in the body of a function used as the callback of map/filter/reduce over a collection written in an
         # earlier statement: the calling statement (not the collection's) is on the path to the fault
